@@ -12,6 +12,7 @@ import (
 	"context"
 	"crypto/sha1"
 	"fmt"
+	"math/big"
 	"math/rand"
 	"os"
 	"path/filepath"
@@ -21,6 +22,7 @@ import (
 	"strings"
 	"sync/atomic"
 
+	simwallet "perun.network/go-perun/backend/sim/wallet"
 	simwire "perun.network/go-perun/backend/sim/wire"
 	"perun.network/go-perun/channel"
 	"perun.network/go-perun/channel/persistence"
@@ -183,8 +185,70 @@ func removeOwnScratch() {
 // ---------------------------------------------------------------------------------------
 // fixtures
 
-// peerAddr are wire addresses: peerAddr[i] belongs to participant i (peerAddr[3]: a further peer).
-var peerAddr [4]map[wallet.BackendID]wire.Address
+// peerAddr are wire addresses: peerAddr[i] belongs to participant i of the C10 channels; C11
+// assigns them per channel (see cPeerIdx).
+var peerAddr [11]map[wallet.BackendID]wire.Address
+
+// maxParts is the largest channel of this harness: 10 participants, the first number at which
+// the width of the zero-padded signature keys (staging:sig:<i>) could change.
+const maxParts = 10
+
+// accs are the participants' accounts: accs[i] = fx.Accs[i] for i < 4, further ones from an
+// own generator (keys only).
+var accs = func() (a [maxParts]*simwallet.Account) {
+	seed, _ := strconv.ParseInt(os.Getenv("VERIF_SEED"), 10, 64)
+	rng := rand.New(rand.NewSource(seed + 3))
+	for i := range a {
+		if i < len(fx.Accs) {
+			a[i] = fx.Accs[i]
+		} else {
+			a[i] = simwallet.NewRandomAccount(rng)
+		}
+	}
+	return a
+}()
+
+func accMap(i int) map[wallet.BackendID]wallet.Account {
+	return map[wallet.BackendID]wallet.Account{0: accs[i]}
+}
+
+// mkParams builds channel parameters for participants 0..n-1 (fx.Params for up to 10 participants).
+func mkParams(n int, app channel.App, nonce int64, ledger bool) *channel.Params {
+	parts := make([]map[wallet.BackendID]wallet.Address, n)
+	for i := range parts {
+		parts[i] = map[wallet.BackendID]wallet.Address{0: accs[i].Address()}
+	}
+	p, err := channel.NewParams(60, parts, app, big.NewInt(nonce), ledger, false, channel.ZeroAux)
+	if err != nil {
+		panic(err)
+	}
+	return p
+}
+
+// evenAlloc: one asset, 5 units for each of n participants.
+func evenAlloc(n int) channel.Allocation {
+	row := make([]int64, n)
+	for i := range row {
+		row[i] = 5
+	}
+	return fx.Alloc(row)
+}
+
+var sigCache = map[string]wallet.Sig{}
+
+// sigOf returns participant i's signature over st (cached: ECDSA signing dominates replay time).
+func sigOf(i int, st *channel.State) wallet.Sig {
+	k := fmt.Sprintf("%d|%s", i, fx.Enc(st))
+	if s, ok := sigCache[k]; ok {
+		return s
+	}
+	s, err := channel.Sign(accs[i], st, 0)
+	if err != nil {
+		panic(err)
+	}
+	sigCache[k] = s
+	return s
+}
 
 // notFound is the class of the error RestoreChannel returns for a channel that never
 // existed; a channel that is absent (not yet created / removed) must restore with exactly
@@ -202,7 +266,7 @@ func init() {
 	for i := range peerAddr {
 		peerAddr[i] = map[wallet.BackendID]wire.Address{0: simwire.NewRandomAddress(rng)}
 	}
-	never := fx.Params(2, channel.NoApp(), 999, true, false)
+	never := mkParams(2, channel.NoApp(), 999, true)
 	_, err := keyvalue.NewPersistRestorer(memorydb.NewDatabase()).RestoreChannel(ctx, never.ID())
 	if err == nil {
 		panic("engine error: restoring from an empty store succeeded")
@@ -377,14 +441,15 @@ var (
 )
 
 func verifies(i int, st *channel.State, sig []byte) bool {
-	if st == nil || len(sig) == 0 || i < 0 || i >= len(fx.Accs) {
+	if st == nil || len(sig) == 0 || i < 0 || i >= len(accs) {
 		return false
 	}
 	k := fmt.Sprintf("%d|%x|%s", i, sig, fx.Enc(st))
 	if v, ok := verifyCache[k]; ok {
 		return v
 	}
-	v := fx.Verifies(i, st, sig)
+	ok, err := channel.Verify(accs[i].Address(), st, sig)
+	v := err == nil && ok
 	if len(verifyCache) > 200000 {
 		verifyCache = map[string]bool{}
 	}
@@ -400,7 +465,7 @@ const sigInfix = ":staging:sig:"
 // is '-' (empty), 'V' (verifies for its slot over the staged state stored next to it) or 'X'
 // (anything else, in particular a signature left over from an earlier staged state); the
 // current transaction is its state plus the status of each slot. Participant i of every
-// channel of this harness is fx.Accs[i].
+// channel of this harness is accs[i].
 func canonDigest(db sortedkv.Database) string {
 	keys, kv := dump(db)
 	h := sha1.New()
